@@ -8,16 +8,16 @@
 (* every probe registry (Ping and ManifestHead).  bad # "" = (D) violates  *)
 (* the statement.  With Fix = {} (the code as found) TLC reports the known *)
 (* defects as counterexamples; with all repairs the invariant holds.       *)
-(* MergeOK checks the one-step obligation of Host.Merge over every pair of *)
-(* records of a product universe (one TLC initial state per pair).         *)
+(* MergeRecs is the product universe of records for the one-step families *)
+(* (Merge, HostNewDefName, JSON) of HostConfGen.                           *)
 (***************************************************************************)
 EXTENDS HostConf, HostConfProp
 
 CONSTANTS MaxOpts,
           UNames, UTls, UCred, UHostname, UMirrors, UPrefix,   \* WithConfigHost entries
-          UDefTls, UDefCred,                                    \* WithConfigHostDefault
+          UDefTls, UDefCred, UDefHostname,                      \* WithConfigHostDefault
           UDockKey, UDockCred,                                  \* docker config entries
-          ProbeRegs
+          ProbeSet                                              \* set of <<kind, registry>>
 
 CredRec(k) ==
   CASE k = "none"  -> [user |-> "",   pass |-> "",   token |-> "",   helper |-> ""]
@@ -37,7 +37,8 @@ HostSources ==
                                              !.mirrors = mi, !.prefix = pre], ck)>>] :
      n \in UNames, t \in UTls, ck \in UCred, hn \in UHostname, mi \in UMirrors, pre \in UPrefix}
 DefSources ==
-  {[k |-> "default", d |-> WithCred([Z EXCEPT !.tls = t], ck)] : t \in UDefTls, ck \in UDefCred}
+  {[k |-> "default", d |-> WithCred([Z EXCEPT !.tls = t, !.hostname = hn], ck)] :
+     t \in UDefTls, ck \in UDefCred, hn \in UDefHostname}
 \* one auths entry (kinds with a helper also get a credHelpers entry; "h1" alone is a credHelpers
 \* entry without auths entry)
 DockerConf(key, ck) ==
@@ -72,10 +73,9 @@ FoldSource(s, src) ==
     [] src.k = "docker" -> FoldStore(FoldHelpers(FoldAuths(s, src.dc, 1), src.dc, 1), src.dc, 1)
 
 \* the monitor's verdict on everything (D) predicts for the state (hs, d)
-ProbeKinds == {"ping", "head"}
 Verdicts(hs, d, s) ==
-  UNION {UNION {{ReqBad(s, kind, r, o) : o \in os} \cup {DoneBad(s, kind, r, {o.addr : o \in os})} :
-                  os \in ObsSetsOf(hs, d, kind, r)} : kind \in ProbeKinds, r \in ProbeRegs}
+  UNION {UNION {{ReqBad(s, p[1], p[2], o) : o \in os} \cup {DoneBad(s, p[1], p[2], {o.addr : o \in os})} :
+                  os \in ObsSetsOf(hs, d, p[1], p[2])} : p \in ProbeSet}
 Verdict(hs, d, s) == LET v == Verdicts(hs, d, s) \ {""} IN
                      IF v = {} THEN "" ELSE CHOOSE x \in v : TRUE
 
@@ -87,21 +87,51 @@ MCNext == /\ nopt < MaxOpts
                /\ bad' = Verdict(hosts', def', ps')
 MCSpec == MCInit /\ [][MCNext]_<<dvars, pvars>>
 
-\* ------------------------------------------------- Merge, one step, all pairs
-CONSTANTS MStr,      \* [field -> set of values] for the string fields that vary
-          MInt       \* [field -> set of values] for the int fields that vary
-MRecs == {r \in [StrFields \cup IntFields \cup {"name"} -> STRING \cup Int] : FALSE}  \* (typing aid only)
-VARIABLES mb, mn
-MergeUniverse ==
-  LET fs == DOMAIN MStr
-      fi == DOMAIN MInt
-      SV == [f \in fs |-> MStr[f]]
-  IN {[f \in DOMAIN Z |-> IF f \in fs THEN sv[f] ELSE IF f \in fi THEN iv[f] ELSE Z[f]] :
-        sv \in [fs -> UNION {MStr[f] : f \in fs}], iv \in [fi -> UNION {MInt[f] : f \in fi}]}
-MergeRecs == {r \in MergeUniverse : /\ \A f \in DOMAIN MStr : r[f] \in MStr[f]
-                                    /\ \A f \in DOMAIN MInt : r[f] \in MInt[f]}
-MergeInit == mb \in MergeRecs /\ mn \in MergeRecs
-MergeNext == UNCHANGED <<mb, mn>>
-MergeSpec == MergeInit /\ [][MergeNext]_<<mb, mn>>
-MergeOK == MergeBad(mb, mn, Merge(mb, mn)) = ""
+\* ------------------------------------------- record universe, one-step families
+CONSTANTS MGroup,    \* set of fields that vary (the others stay zero)
+          MVals,     \* 2 or 3: values per varying field (zero value included) of the new entry
+          MValsB     \* the same for the existing entry
+SVals(f, MV) == CASE f = "tls" -> IF MV = 2 THEN {"", "disabled"} ELSE {"", "enabled", "insecure", "disabled"}
+              [] f = "prefix" -> IF MV = 2 THEN {"", "/pp/"} ELSE {"", "pp", "/pp/", "qq"}
+              [] f = "mirrors" -> IF MV = 2 THEN {"", "m1.test"} ELSE {"", "m1.test", "m1.test,r2.test"}
+              [] f = "hostname" -> IF MV = 2 THEN {"", "alt.test"} ELSE {"", "alt.test", "r2.test"}
+              [] f = "credhost" -> IF MV = 2 THEN {"", "alt.test"} ELSE {"", "alt.test", "http://r1.test"}
+              [] f = "user" -> IF MV = 2 THEN {"", "u1"} ELSE {"", "u1", "u2"}
+              [] f = "pass" -> IF MV = 2 THEN {"", "p1"} ELSE {"", "p1", "p2"}
+              [] f = "token" -> IF MV = 2 THEN {"", "t1"} ELSE {"", "t1", "t2"}
+              [] f = "helper" -> IF MV = 2 THEN {"", "h1"} ELSE {"", "h1", "h2"}
+              [] f = "regcert" -> IF MV = 2 THEN {"", "ca-r1.test"} ELSE {"", "ca-r1.test", "ca-r2.test"}
+              [] f = "ccert" -> IF MV = 2 THEN {"", "cc1"} ELSE {"", "cc1", "cc2"}
+              [] f = "ckey" -> IF MV = 2 THEN {"", "ck1"} ELSE {"", "ck1", "ck2"}
+              [] f = "ao1" -> IF MV = 2 THEN {"", "a"} ELSE {"", "a", "b"}
+              [] f = "ao2" -> IF MV = 2 THEN {"", "a"} ELSE {"", "a", "b"}
+              [] f = "api" -> {"", "x"}
+              [] f = "scheme" -> {"", "x"}
+              [] f = "name" -> {"", "r1.test", "r2.test"}
+IVals(f, MV) == CASE f = "expire" -> IF MV = 2 THEN {0, 1} ELSE {0, 1, 2}
+              [] f = "prio" -> IF MV = 2 THEN {0, 1} ELSE {0, 1, 2}
+              [] f = "repoauth" -> {0, 1}
+              [] f = "chunk" -> IF MV = 2 THEN {0, 1} ELSE {0, 1, 2, -1}
+              [] f = "bmax" -> IF MV = 2 THEN {0, 1} ELSE {0, 1, 2, -1}
+              [] f = "rps" -> IF MV = 2 THEN {0, 1} ELSE {0, 1, 2}
+              [] f = "conc" -> IF MV = 2 THEN {0, 1} ELSE {0, 1, 3, -1}
+SD(f, MV) == IF f \in MGroup THEN SVals(f, MV) ELSE {""}
+ID(f, MV) == IF f \in MGroup THEN IVals(f, MV) ELSE {0}
+MergeRecsOf(MV) ==
+  {[name |-> v0, tls |-> v1, hostname |-> v2, user |-> v3, pass |-> v4, token |-> v5, helper |-> v6,
+    expire |-> i1, credhost |-> v7, prefix |-> v8, mirrors |-> v9, prio |-> i2, repoauth |-> i3,
+    ao1 |-> v10, ao2 |-> v11, chunk |-> i4, bmax |-> i5, rps |-> i6, conc |-> i7,
+    regcert |-> v12, ccert |-> v13, ckey |-> v14, api |-> v15, scheme |-> v16] :
+     v0 \in SD("name", MV), v1 \in SD("tls", MV), v2 \in SD("hostname", MV), v3 \in SD("user", MV), v4 \in SD("pass", MV),
+     v5 \in SD("token", MV), v6 \in SD("helper", MV), v7 \in SD("credhost", MV), v8 \in SD("prefix", MV),
+     v9 \in SD("mirrors", MV), v10 \in SD("ao1", MV), v11 \in SD("ao2", MV), v12 \in SD("regcert", MV),
+     v13 \in SD("ccert", MV), v14 \in SD("ckey", MV), v15 \in SD("api", MV), v16 \in SD("scheme", MV),
+     i1 \in ID("expire", MV), i2 \in ID("prio", MV), i3 \in ID("repoauth", MV), i4 \in ID("chunk", MV),
+     i5 \in ID("bmax", MV), i6 \in ID("rps", MV), i7 \in ID("conc", MV)}
+MergeRecs == MergeRecsOf(MVals)
+\* values for ProbeSet (a cfg file cannot write tuples)
+ProbeSetStd == {<<"ping", "r1.test">>, <<"head", "r1.test">>, <<"ping", "u.test">>, <<"ping", "m1.test">>,
+                <<"ping", "docker.io">>, <<"head", "docker.io">>, <<"ping", "registry-1.docker.io">>,
+                <<"head", "registry-1.docker.io">>, <<"head", "index.docker.io">>, <<"ping", "r2.test">>,
+                <<"head", "r2.test">>}
 =============================================================================
